@@ -74,7 +74,14 @@ def sensitivity(props):
                     continue
                 env = dict(os.environ, VERIF_REPO_SRC=os.path.join(tmp, 'src'), VERIF_NO_EVIDENCE='1')
                 env.pop('VERIF_REEXEC', None)
-                r = subprocess.run([os.path.join(VERIF, 'check'), prop, 'quick'], env=env, capture_output=True, text=True)
+                tier = 'quick'
+                if patch.endswith('.thorough.patch'):
+                    # a change the quick tier is known not to reach (see DESIGN.md B.6): judged by the thorough tier, and only on request
+                    if not os.environ.get('VERIF_SELFTEST_THOROUGH'):
+                        print(f'sensitivity {os.path.basename(patch)}: skipped (thorough tier only; set VERIF_SELFTEST_THOROUGH=1)')
+                        continue
+                    tier = 'thorough'
+                r = subprocess.run([os.path.join(VERIF, 'check'), prop, tier], env=env, capture_output=True, text=True)
                 hit = [l for l in r.stdout.splitlines() if l.startswith('VIOLATION')]
                 if r.returncode == 1 and hit:
                     print(f'sensitivity {os.path.basename(patch)}: caught ({len(hit)} signature(s))')
